@@ -104,6 +104,7 @@ structure AttrObs where
   afi   : Nat := 0             -- MP_(UN)REACH
   safi  : Nat := 0
   npfx  : Nat := 0             -- MP_(UN)REACH number of prefixes
+  ids   : List Nat := []      -- MP_(UN)REACH path identifiers of the prefixes (0 without ADD-PATH)
   deriving DecidableEq, Repr
 
 /-- how the attribute loop of BGPUpdate.DecodeFromBytes ended -/
@@ -121,6 +122,8 @@ structure AMsg where
   stop  : Stop := .done
   nlriErr : Option (Nat × Nat) := none  -- fatal error while scanning the NLRI field
   nlri  : Nat := 0                      -- number of NLRI
+  wdIds : List Nat := []                -- path identifiers of the withdrawn routes (0 without ADD-PATH)
+  nlriIds : List Nat := []              -- path identifiers of the NLRI
   deriving Repr
 
 /-- session parameters that the handling depends on -/
@@ -379,5 +382,29 @@ def sessionRun (c : Cfg) : List AMsg → List Action
   | m :: rest =>
     let a := sessionAction c m
     if a.isReset then [a] else a :: sessionRun c rest
+
+/-! ### the route KEY: ProcessMessage's paths carry the path identifier of their NLRI -/
+
+/-- path identifiers of the LAST attribute of type `t` (cf. `lastNpfx`) -/
+def lastIds (attrs : List AttrObs) (t : Nat) : List Nat :=
+  (attrs.foldl (fun acc a => if a.typ == t then some a.ids else acc) none).getD []
+
+/-- `table.ProcessMessage`, path by path, in its order (NLRI, MP_REACH, WITHDRAWN ROUTES, MP_UNREACH):
+    (is a withdrawal, path identifier = `p.remoteID = nlri.ID`).  Adj-RIB-In and Loc-RIB match a
+    withdrawal on (source, prefix, path identifier). -/
+def processPaths (taw : Bool) (attrs : List AttrObs) (wdIds nlriIds : List Nat) : List (Bool × Nat) :=
+  if isEOR attrs wdIds.length nlriIds.length then []
+  else
+    nlriIds.map (fun i => (taw, i)) ++ (lastIds attrs 14).map (fun i => (taw, i)) ++
+      (wdIds.map (fun i => (true, i)) ++ (lastIds attrs 15).map (fun i => (true, i)))
+
+/-- the paths handed to the RIBs for the message recvMessageloop delivers (none: session reset).
+    A delivered message has sound length fields and NLRI, so the identifiers are those of `m`. -/
+def effectPaths (c : Cfg) (m : AMsg) : Option (List (Bool × Nat)) :=
+  match sessionAction c m with
+  | .install l => some (processPaths false l m.wdIds m.nlriIds)
+  | .discardAttrs l => some (processPaths false l m.wdIds m.nlriIds)
+  | .withdrawAll l => some (processPaths true l m.wdIds m.nlriIds)
+  | .reset _ _ => none
 
 end ErrH
